@@ -546,7 +546,7 @@ mod inner {
             };
             ArgRangesIter {
                 args: self,
-                cur: 0,
+                cur: self.scope.start,
                 width,
             }
         }
@@ -602,7 +602,7 @@ mod inner {
         fn next(&mut self) -> Option<Self::Item> {
             loop {
                 let cur = self.cur;
-                if cur > self.args.scope.end {
+                if cur >= self.args.scope.end {
                     return None;
                 }
                 self.cur += 1;
